@@ -312,3 +312,56 @@ def frame_image(m, meta):
     finally:
         shutil.rmtree(tmp, ignore_errors=True)
     return {"reproduced": bool(problems), "input": "4-frame opaque RGB GIF from a file, size ORIGINAL, 2 passes, all styles", "observed": problems[:3]}
+
+
+def close_order(m, meta):
+    """an image and an iterator over it, closed in either order after a partial iteration (file and PIL sources, block / kitty /
+    iterm2): the open-file count is back at its start value while both objects are still referenced; the caller's PIL image stays
+    usable; neither close() raises"""
+    import os, tempfile, shutil, warnings
+    import tests  # noqa: F401
+    from PIL import Image
+    from term_image.image import BlockImage, KittyImage, ITerm2Image, ImageIterator
+    warnings.simplefilter("ignore")
+    KittyImage._supported = ITerm2Image._supported = True
+    problems = []
+    tmp = tempfile.mkdtemp()
+    keep = []
+    try:
+        path = os.path.join(tmp, "anim.gif")
+        frames = [Image.new("RGB", (8, 8), (i * 40, 10, 10)) for i in range(4)]
+        frames[0].save(path, save_all=True, append_images=frames[1:], duration=100, loop=0)
+        nfd = lambda: len(os.listdir("/proc/self/fd"))
+        for cls in (BlockImage, KittyImage, ITerm2Image):
+            for src in ("file", "pil"):
+                for order in ("image, iterator", "iterator, image"):
+                    for steps in (0, 2):
+                        pil = Image.open(path) if src == "pil" else None
+                        b0 = nfd()
+                        image = cls(pil) if pil is not None else cls.from_file(path)
+                        it = ImageIterator(image, 1, "", False)
+                        for _ in range(steps):
+                            next(it)
+                        errs = []
+                        for what in ((image, it) if order.startswith("image") else (it, image)):
+                            try:
+                                what.close()
+                            except Exception as e:  # noqa: BLE001
+                                errs.append(f"{type(what).__name__}.close() raised {type(e).__name__}: {e}")
+                        left = nfd() - b0
+                        keep.append((image, it))            # both objects stay referenced: nothing is left to the garbage collector
+                        if errs:
+                            problems.append(f"{cls.__name__}, {src} source, {steps} frames, close order ({order}): {errs[0]}")
+                        if left > 0 and not (steps == 0 and src == "file" and False):
+                            problems.append(f"{cls.__name__}, {src} source, {steps} frames read, close order ({order}): {left} file descriptor(s) still open "
+                                            f"after both were closed")
+                        if pil is not None:
+                            try:
+                                pil.seek(1); pil.load()
+                            except Exception as e:  # noqa: BLE001
+                                problems.append(f"{cls.__name__}, PIL source, close order ({order}): the caller's image was closed ({e})")
+                            pil.close()
+    finally:
+        keep.clear()
+        shutil.rmtree(tmp, ignore_errors=True)
+    return {"reproduced": bool(problems), "input": "partial iteration, then image.close() / iterator.close() in both orders", "observed": problems[:4]}
